@@ -494,9 +494,13 @@ theorem drawSizes_noInt (size : R) (n : Nat) (tot : R) : QNoInt (G := G) (drawSi
     unfold drawSizes
     repeat (first | exact drawUniform_noInt _ _ | exact ih _ | qnoint_step)
 
-theorem CompModel.get_noInt (m : CompModel R) (hw : m.WellFormed) (ctx : Ctx R) (q : Query R) (n : Nat) (old : R) :
-    QNoInt (G := G) (m.get ctx q n old) := by
+theorem CompModel.get_noInt (m : CompModel R) (hw : m.WellFormed) (ctx : Ctx R) (q : Query R) (hq : NoInt (q.worldT ()))
+    (n : Nat) (old : R) : QNoInt (G := G) (m.get ctx q n old) := by
   cases m with
+  | tianWater rng op comps spec =>
+    have hr : rng.WellFormed := hw
+    simp only [CompModel.get]
+    repeat (first | exact QNoInt.liftE (rng.locals_noInt hr _ _ _) | exact QNoInt.liftE hq | qnoint_step)
   | uniform rng op comps fractions =>
     obtain ⟨hr, h1⟩ := hw
     simp only [CompModel.get]
@@ -523,8 +527,8 @@ theorem GrainsModel.get_noInt (m : GrainsModel R) (hw : m.WellFormed) (ctx : Ctx
     repeat (first | exact QNoInt.liftE (rng.locals_noInt hr _ _ _) | exact drawMatrices_noInt _ _ _ | exact drawSizes_noInt _ _ _ | qnoint_step)
 
 /-- what a covering area feature / plume does for one request, on the request's own block -/
-theorem paintAt_noInt (tag : Nat) (ms : Models R) (hw : ms.WellFormed) (ctx : Ctx R) (q : Query R) (fMin fMax rel : R)
-    (p : Req) (blk : List R) (hsz : p.size? = some blk.length) :
+theorem paintAt_noInt (tag : Nat) (ms : Models R) (hw : ms.WellFormed) (ctx : Ctx R) (q : Query R) (hq : NoInt (q.worldT ()))
+    (fMin fMax rel : R) (p : Req) (blk : List R) (hsz : p.size? = some blk.length) :
     QNoInt (G := G) (paintAt tag ms ctx q fMin fMax rel p 0 blk) := by
   obtain ⟨ht, hv, hc, hg⟩ := hw
   obtain ⟨code, n, k⟩ := p
@@ -540,7 +544,7 @@ theorem paintAt_noInt (tag : Nat) (ms : Models R) (hw : ms.WellFormed) (ctx : Ct
     simp only [Option.some.injEq] at hsz
     unfold paintAt
     refine QNoInt.bind (QNoInt.liftE (idx_noInt _ _ (by omega))) (fun old => ?_)
-    refine QNoInt.bind (QNoInt.foldlM _ _ (fun b m hm => CompModel.get_noInt m (hc m hm) ctx q n b) _) (fun t => ?_)
+    refine QNoInt.bind (QNoInt.foldlM _ _ (fun b m hm => CompModel.get_noInt m (hc m hm) ctx q hq n b) _) (fun t => ?_)
     exact QNoInt.pure _
   | 3, hsz =>
     unfold paintAt
@@ -569,6 +573,9 @@ theorem LineComp.get_noInt (m : LineComp R) (hw : m.WellFormed) (isFault : Bool)
     obtain ⟨h1, h2⟩ := hw
     simp only [LineComp.get]
     repeat noint_step
+  | tianWater mn mx op comps spec =>
+    simp only [LineComp.get]
+    exact NoInt.ok _
 
 theorem LineGrains.get_noInt (m : LineGrains R) (hw : m.WellFormed) (isFault : Bool) (pd : PlaneDist R) (n : Nat) (old : Grains R) :
     NoInt (m.get isFault pd n old) := by
@@ -577,6 +584,15 @@ theorem LineGrains.get_noInt (m : LineGrains R) (hw : m.WellFormed) (isFault : B
     obtain ⟨h1, h2⟩ := hw
     simp only [LineGrains.get]
     repeat noint_step
+  | randomUniform mn mx comps sizes normalize =>
+    simp only [LineGrains.get]
+    exact NoInt.ok _
+  | randomUniformDeflected mn mx comps basis sizes normalize deflections =>
+    simp only [LineGrains.get]
+    exact NoInt.ok _
+  | drawn g =>
+    simp only [LineGrains.get]
+    split <;> exact NoInt.ok _
 
 theorem linePaintAt_noInt (f : LineFeature R) (ctx : Ctx R) (q : Query R) (h : LineHit R)
     (hc : h.cur.WellFormed) (hn : h.next.WellFormed) (p : Req) (blk : List R) (hsz : p.size? = some blk.length) :
@@ -617,13 +633,151 @@ def Hit.WellFormed : Hit R → Prop
   | .areaLike _ ms _ _ _ => ms.WellFormed
   | .line _ h => h.cur.WellFormed ∧ h.next.WellFormed
 
-theorem Hit.paintAt_noInt (hit : Hit R) (hw : hit.WellFormed) (ctx : Ctx R) (q : Query R) (p : Req) (blk : List R)
-    (hsz : p.size? = some blk.length) : QNoInt (G := G) (hit.paintAt ctx q p 0 blk) := by
-  cases hit with
-  | areaLike tag ms a b r => exact Gwb.paintAt_noInt tag ms hw ctx q a b r p blk hsz
-  | line f h => exact QNoInt.liftE (linePaintAt_noInt f ctx q h hw.1 hw.2 p blk hsz)
+/-! #### the preparation of a slab's / fault's models for one request (`LineHit.prepare`) -/
 
-theorem paintBlocks_noInt (hit : Hit R) (hw : hit.WellFormed) (ctx : Ctx R) (q : Query R)
+theorem NoInt.mapM' {α β : Type} (f : α → Except Err β) (xs : List α) (hf : ∀ a ∈ xs, NoInt (f a)) : NoInt (xs.mapM f) := by
+  induction xs with
+  | nil => exact NoInt.pure _
+  | cons x xs ih =>
+    rw [List.mapM_cons]
+    refine NoInt.bind (hf x (List.mem_cons_self ..)) (fun b _ => ?_)
+    refine NoInt.bind (ih (fun a ha => hf a (List.mem_cons_of_mem _ ha))) (fun bs _ => NoInt.pure _)
+
+/-- every element of a successful `mapM` (exception monad) satisfies the postcondition of its producer -/
+theorem mapM_ok_forall {α β : Type} (f : α → Except Err β) (P : β → Prop) (xs : List α) (hf : ∀ a ∈ xs, ∀ b, f a = .ok b → P b)
+    (bs : List β) (h : xs.mapM f = .ok bs) : ∀ b ∈ bs, P b := by
+  induction xs generalizing bs with
+  | nil =>
+    simp only [List.mapM_nil, pure, Except.pure, Except.ok.injEq] at h
+    subst h; intro b hb; cases hb
+  | cons x xs ih =>
+    rw [List.mapM_cons] at h
+    cases hx : f x with
+    | error e => simp [hx, bind, Except.bind] at h
+    | ok b0 =>
+      cases hxs : xs.mapM f with
+      | error e => simp [hx, hxs, bind, Except.bind] at h
+      | ok bs0 =>
+        simp [hx, hxs, bind, Except.bind, pure, Except.pure] at h
+        subst h
+        intro b hb
+        rcases List.mem_cons.1 hb with rfl | hb
+        · exact hf x (List.mem_cons_self ..) _ hx
+        · exact ih (fun a ha => hf a (List.mem_cons_of_mem _ ha)) bs0 hxs b hb
+
+theorem QNoInt.mapM {α β : Type} (f : α → QM G β) (xs : List α) (hf : ∀ a ∈ xs, QNoInt (f a)) : QNoInt (xs.mapM f) := by
+  induction xs with
+  | nil => simpa using QNoInt.pure (G := G) ([] : List β)
+  | cons x xs ih =>
+    rw [List.mapM_cons]
+    refine QNoInt.bind (hf x (List.mem_cons_self ..)) (fun b => ?_)
+    exact QNoInt.bind (ih (fun a ha => hf a (List.mem_cons_of_mem _ ha))) (fun bs => QNoInt.pure _)
+
+theorem Post.mapM_mem {α β : Type} (f : α → QM G β) (P : β → Prop) (xs : List α) (hf : ∀ a ∈ xs, Post (f a) P) :
+    Post (xs.mapM f) (fun bs => ∀ b ∈ bs, P b) := by
+  induction xs with
+  | nil => simpa using Post.pure (G := G) (a := ([] : List β)) (P := fun bs => ∀ b ∈ bs, P b) (fun b hb => by cases hb)
+  | cons x xs ih =>
+    rw [List.mapM_cons]
+    refine Post.bind (hf x (List.mem_cons_self ..)) (fun b hb => ?_)
+    refine Post.bind (ih (fun a ha => hf a (List.mem_cons_of_mem _ ha))) (fun bs hbs => Post.pure ?_)
+    intro b' hb'
+    rcases List.mem_cons.1 hb' with rfl | hb'
+    · exact hb
+    · exact hbs b' hb'
+
+/-- a water-content model evaluates the world's temperature only; what it is replaced by is well-formed -/
+theorem LineComp.prepare_noInt (m : LineComp R) (isFault : Bool) (q : Query R) (hq : NoInt (q.worldT ())) (pd : PlaneDist R) :
+    NoInt (m.prepare isFault q pd) := by
+  cases m with
+  | tianWater mn mx op comps spec =>
+    simp only [LineComp.prepare]
+    split
+    · exact NoInt.bind hq (fun _ _ => NoInt.pure _)
+    · exact NoInt.pure _
+  | uniform mn mx op comps fr => exact NoInt.pure _
+  | smooth mn mx side op comps topF bottomF => exact NoInt.pure _
+
+theorem LineComp.prepare_wf (m : LineComp R) (hw : m.WellFormed) (isFault : Bool) (q : Query R) (pd : PlaneDist R)
+    (m' : LineComp R) (h : m.prepare isFault q pd = .ok m') : m'.WellFormed := by
+  cases m with
+  | tianWater mn mx op comps spec =>
+    simp only [LineComp.prepare] at h
+    split at h
+    · cases ht : q.worldT () with
+      | error e => simp [ht, bind, Except.bind] at h
+      | ok t =>
+        simp [ht, bind, Except.bind, pure, Except.pure] at h
+        subst h
+        simp [LineComp.WellFormed]
+    · simp only [pure, Except.pure, Except.ok.injEq] at h; subst h; exact hw
+  | uniform mn mx op comps fr =>
+    simp only [LineComp.prepare, pure, Except.pure, Except.ok.injEq] at h; subst h; exact hw
+  | smooth mn mx side op comps topF bottomF =>
+    simp only [LineComp.prepare, pure, Except.pure, Except.ok.injEq] at h; subst h; exact hw
+
+theorem LineGrains.prepare_noInt (m : LineGrains R) (hw : m.WellFormed) (isFault : Bool) (pd : PlaneDist R) (n : Nat) (g0 : Grains R) :
+    QNoInt (G := G) (m.prepare isFault pd n g0) := by
+  cases m with
+  | uniform mn mx comps mats sizes => exact QNoInt.pure _
+  | drawn g => exact QNoInt.pure _
+  | randomUniform mn mx comps sizes normalize =>
+    obtain ⟨h1, h2⟩ := hw
+    simp only [LineGrains.prepare]
+    repeat (first | exact drawMatrices_noInt _ _ _ | exact drawSizes_noInt _ _ _ | qnoint_step)
+  | randomUniformDeflected mn mx comps basis sizes normalize deflections =>
+    obtain ⟨h1, h2, h3, h4⟩ := hw
+    simp only [LineGrains.prepare]
+    repeat (first | exact drawMatrices_noInt _ _ _ | exact drawSizes_noInt _ _ _ | qnoint_step)
+
+theorem LineGrains.prepare_wf (m : LineGrains R) (hw : m.WellFormed) (isFault : Bool) (pd : PlaneDist R) (n : Nat) (g0 : Grains R) :
+    Post (G := G) (m.prepare isFault pd n g0) LineGrains.WellFormed := by
+  cases m with
+  | uniform mn mx comps mats sizes => exact Post.pure hw
+  | drawn g => exact Post.pure hw
+  | randomUniform mn mx comps sizes normalize =>
+    simp only [LineGrains.prepare]
+    repeat (first | exact Post.pure hw | exact Post.pure (by simp [LineGrains.WellFormed]) | refine Post.bind (Post.triv _) (fun _ _ => ?_) | split)
+  | randomUniformDeflected mn mx comps basis sizes normalize deflections =>
+    simp only [LineGrains.prepare]
+    repeat (first | exact Post.pure hw | exact Post.pure (by simp [LineGrains.WellFormed]) | refine Post.bind (Post.triv _) (fun _ _ => ?_) | split)
+
+theorem Segment.prepare_noInt (s : Segment R) (hw : s.WellFormed) (isFault : Bool) (q : Query R) (hq : NoInt (q.worldT ()))
+    (pd : PlaneDist R) (p : Req) (g0 : Grains R) : QNoInt (G := G) (s.prepare isFault q pd p g0) := by
+  unfold Segment.prepare
+  split
+  · exact QNoInt.bind (QNoInt.liftE (NoInt.mapM' _ _ (fun m _ => m.prepare_noInt isFault q hq pd))) (fun _ => QNoInt.pure _)
+  · exact QNoInt.bind (QNoInt.mapM _ _ (fun m hm => m.prepare_noInt (hw.2 m hm) isFault pd p.n g0)) (fun _ => QNoInt.pure _)
+  · exact QNoInt.pure _
+
+theorem Segment.prepare_wf (s : Segment R) (hw : s.WellFormed) (isFault : Bool) (q : Query R) (pd : PlaneDist R) (p : Req)
+    (g0 : Grains R) : Post (G := G) (s.prepare isFault q pd p g0) Segment.WellFormed := by
+  unfold Segment.prepare
+  split
+  · refine Post.bind (P := fun comps => ∀ m ∈ comps, LineComp.WellFormed m) (Post.liftE (fun comps hc => ?_)) (fun comps hc => Post.pure ⟨hc, hw.2⟩)
+    exact mapM_ok_forall _ _ _ (fun m hm m' hm' => m.prepare_wf (hw.1 m hm) isFault q pd m' hm') comps hc
+  · refine Post.bind (Post.mapM_mem _ LineGrains.WellFormed _ (fun m hm => m.prepare_wf (hw.2 m hm) isFault pd p.n g0))
+      (fun grains hg => Post.pure ⟨hw.1, hg⟩)
+  · exact Post.pure hw
+
+theorem linePaintAtM_noInt (f : LineFeature R) (ctx : Ctx R) (q : Query R) (hq : NoInt (q.worldT ())) (h : LineHit R)
+    (hc : h.cur.WellFormed) (hn : h.next.WellFormed) (p : Req) (blk : List R) (hsz : p.size? = some blk.length) :
+    QNoInt (G := G) (linePaintAtM f ctx q h p 0 blk) := by
+  unfold linePaintAtM LineHit.prepare
+  refine QNoInt.bindPost (P := fun h' => h'.cur.WellFormed ∧ h'.next.WellFormed) ?_ ?_
+    (fun h' hw' => QNoInt.liftE (linePaintAt_noInt f ctx q h' hw'.1 hw'.2 p blk hsz))
+  · exact QNoInt.bind (h.cur.prepare_noInt hc f.isFault q hq h.pd p _) fun _ =>
+      QNoInt.bind (h.next.prepare_noInt hn f.isFault q hq h.pd p _) fun _ => QNoInt.pure _
+  · exact Post.bind (h.cur.prepare_wf hc f.isFault q h.pd p _) fun cur hcur =>
+      Post.bind (h.next.prepare_wf hn f.isFault q h.pd p _) fun next hnext => Post.pure ⟨hcur, hnext⟩
+
+theorem Hit.paintAt_noInt (hit : Hit R) (hw : hit.WellFormed) (ctx : Ctx R) (q : Query R) (hq : NoInt (q.worldT ())) (p : Req)
+    (blk : List R) (hsz : p.size? = some blk.length) : QNoInt (G := G) (hit.paintAt ctx q p 0 blk) := by
+  cases hit with
+  | areaLike tag ms a b r => exact Gwb.paintAt_noInt tag ms hw ctx q hq a b r p blk hsz
+  | line f h => exact linePaintAtM_noInt f ctx q hq h hw.1 hw.2 p blk hsz
+
+theorem paintBlocks_noInt (hit : Hit R) (hw : hit.WellFormed) (ctx : Ctx R) (q : Query R) (hq : NoInt (q.worldT ()))
     (ps : List Req) (bs : List (List R)) (hf : Fits ps bs) : QNoInt (G := G) (paintBlocks hit ctx q ps bs) := by
   induction ps generalizing bs with
   | nil => cases bs <;> exact QNoInt.pure _
@@ -633,12 +787,12 @@ theorem paintBlocks_noInt (hit : Hit R) (hw : hit.WellFormed) (ctx : Ctx R) (q :
     | cons b bs =>
       obtain ⟨h1, h2⟩ := hf
       unfold paintBlocks
-      refine QNoInt.bind (hit.paintAt_noInt hw ctx q p b h1) (fun b' => ?_)
+      refine QNoInt.bind (hit.paintAt_noInt hw ctx q hq p b h1) (fun b' => ?_)
       refine QNoInt.bind (ih bs h2) (fun bs' => QNoInt.pure _)
 
 /-- a feature whose guards do not index out of range and whose hit is well-formed never reports `internal` -/
-theorem Feature.applyBlocks_noInt (f : Feature R) (ctx : Ctx R) (q : Query R) (ps : List Req) (bs : List (List R))
-    (hf : Fits ps bs) (hcov : NoInt (f.cover ctx q)) (hhit : ∀ hit, f.cover ctx q = .ok (some hit) → hit.WellFormed) :
+theorem Feature.applyBlocks_noInt (f : Feature R) (ctx : Ctx R) (q : Query R) (hq : NoInt (q.worldT ())) (ps : List Req)
+    (bs : List (List R)) (hf : Fits ps bs) (hcov : NoInt (f.cover ctx q)) (hhit : ∀ hit, f.cover ctx q = .ok (some hit) → hit.WellFormed) :
     QNoInt (G := G) (f.applyBlocks ctx q ps bs) := by
   intro g
   unfold Feature.applyBlocks
@@ -647,7 +801,7 @@ theorem Feature.applyBlocks_noInt (f : Feature R) (ctx : Ctx R) (q : Query R) (p
   | ok o =>
     cases o with
     | none => simp
-    | some hit => exact paintBlocks_noInt hit (hhit hit hc) ctx q ps bs hf g
+    | some hit => exact paintBlocks_noInt hit (hhit hit hc) ctx q hq ps bs hf g
 
 theorem embedBlocks_ne_internal (pre : List R) (x : Except Err (List (List R) × G)) (h : x ≠ .error .internal) :
     embedBlocks pre x ≠ .error .internal := by
@@ -960,16 +1114,17 @@ theorem Feature.cover_hit_wf (f : Feature R) (hw : f.WellFormed) (ctx : Ctx R) (
         simp [hc, Except.map] at h; subst h
         exact (l.covers_safe hw ctx q).post hc lh rfl
 
-theorem Feature.applyBlocks_noInt_of_wf (f : Feature R) (hw : f.WellFormed) (ctx : Ctx R) (q : Query R) (ps : List Req)
-    (bs : List (List R)) (hf : Fits ps bs) : QNoInt (G := G) (f.applyBlocks ctx q ps bs) :=
-  f.applyBlocks_noInt ctx q ps bs hf (f.cover_noInt hw ctx q) (f.cover_hit_wf hw ctx q)
+theorem Feature.applyBlocks_noInt_of_wf (f : Feature R) (hw : f.WellFormed) (ctx : Ctx R) (q : Query R) (hq : NoInt (q.worldT ()))
+    (ps : List Req) (bs : List (List R)) (hf : Fits ps bs) : QNoInt (G := G) (f.applyBlocks ctx q ps bs) :=
+  f.applyBlocks_noInt ctx q hq ps bs hf (f.cover_noInt hw ctx q) (f.cover_hit_wf hw ctx q)
 
-/-- a well-formed feature applied to a fitting output vector never reports `internal` -/
-theorem Feature.apply_noInt (f : Feature R) (hw : f.WellFormed) (ctx : Ctx R) (q : Query R) (ps : List Req)
-    (bs : List (List R)) (hf : Fits ps bs) (g : G) :
+/-- a well-formed feature applied to a fitting output vector never reports `internal` (`hq`: nor does the world's temperature,
+which the water-content models ask for; `World.props3` supplies a query for which this holds, `World.temperaturePure_noInt`) -/
+theorem Feature.apply_noInt (f : Feature R) (hw : f.WellFormed) (ctx : Ctx R) (q : Query R) (hq : NoInt (q.worldT ()))
+    (ps : List Req) (bs : List (List R)) (hf : Fits ps bs) (g : G) :
     f.apply ctx q (ps.zip (entries ps)) bs.flatten g ≠ .error .internal := by
   rw [Feature.apply_blocks f ctx q ps bs hf g]
-  exact embedBlocks_ne_internal _ _ (f.applyBlocks_noInt_of_wf hw ctx q ps bs hf g)
+  exact embedBlocks_ne_internal _ _ (f.applyBlocks_noInt_of_wf hw ctx q hq ps bs hf g)
 
 theorem QNoInt.foldlM_inv {α β : Type} (f : β → α → QM G β) (P : β → Prop) (xs : List α)
     (hP : ∀ b a, a ∈ xs → P b → Post (f b a) P) (hf : ∀ b a, a ∈ xs → P b → QNoInt (f b a)) (b : β) (hb : P b) :
@@ -981,12 +1136,13 @@ theorem QNoInt.foldlM_inv {α β : Type} (f : β → α → QM G β) (P : β →
     refine QNoInt.bindPost (hf b x (List.mem_cons_self ..) hb) (hP b x (List.mem_cons_self ..) hb) (fun b' hb' => ?_)
     exact ih (fun b a ha => hP b a (List.mem_cons_of_mem _ ha)) (fun b a ha => hf b a (List.mem_cons_of_mem _ ha)) b' hb'
 
-theorem featuresBlocks_noInt (fs : List (Feature R)) (hw : ∀ f ∈ fs, f.WellFormed) (ctx : Ctx R) (q : Query R) (ps : List Req)
+theorem featuresBlocks_noInt (fs : List (Feature R)) (hw : ∀ f ∈ fs, f.WellFormed) (ctx : Ctx R) (q : Query R)
+    (hq : NoInt (q.worldT ())) (ps : List Req)
     (bs : List (List R)) (hf : Fits ps bs) : QNoInt (G := G) (featuresBlocks fs ctx q ps bs) := by
   unfold featuresBlocks
   exact QNoInt.foldlM_inv _ (fun bs => Fits ps bs) fs
     (fun b f _ hb => Feature.applyBlocks_fits f ctx q ps b hb)
-    (fun b f hf' hb => f.applyBlocks_noInt_of_wf (hw f hf') ctx q ps b hb) bs hf
+    (fun b f hf' hb => f.applyBlocks_noInt_of_wf (hw f hf') ctx q hq ps b hb) bs hf
 
 theorem NoInt.mapM {α β : Type} (f : α → Except Err β) (xs : List α) (hf : ∀ a ∈ xs, NoInt (f a)) : NoInt (xs.mapM f) := by
   induction xs with
@@ -999,6 +1155,42 @@ theorem NoInt.mapM {α β : Type} (f : α → Except Err β) (xs : List α) (hf 
 theorem initBlock_noInt (ctx : Ctx R) (gn depth : R) (p : Req) : NoInt (initBlock ctx gn depth p) := by
   unfold initBlock
   repeat noint_step
+
+/-! #### the world's temperature as the water-content models ask for it -/
+
+theorem Feature.applyTemp_noInt (f : Feature R) (hw : f.WellFormed) (ctx : Ctx R) (q : Query R) (old : R) :
+    NoInt (f.applyTemp ctx q old) := by
+  cases f with
+  | area a =>
+    simp only [Feature.applyTemp, AreaFeature.applyTemp]
+    refine NoInt.bind (a.covers_noInt hw.1 ctx q) (fun o _ => ?_)
+    split
+    · exact NoInt.pure _
+    · exact NoInt.foldlM _ _ (fun b m hm => m.get_noInt (hw.2.1 m hm) ctx q b _ _ _) _
+  | plume p =>
+    simp only [Feature.applyTemp, PlumeFeature.applyTemp]
+    refine NoInt.bind (p.covers_noInt ctx q hw.1) (fun o _ => ?_)
+    split
+    · exact NoInt.pure _
+    · exact NoInt.foldlM _ _ (fun b m hm => m.get_noInt (hw.2.1 m hm) ctx q b _ _ _) _
+  | line l =>
+    simp only [Feature.applyTemp, LineFeature.applyTemp]
+    refine NoInt.bind (l.covers_safe hw ctx q).noInt (fun o _ => ?_)
+    split
+    · exact NoInt.pure _
+    · exact NoInt.pure _
+
+/-- the world temperature a query hands to the water-content models never indexes out of range either -/
+theorem World.temperaturePure_noInt (w : World R) (hw : w.WellFormed) (pt : P3 R) (depth : R) :
+    NoInt (w.temperaturePure pt depth) := by
+  unfold World.temperaturePure
+  simp only
+  split
+  · exact NoInt.ok _
+  · exact NoInt.foldlM _ _ (fun b f hf => f.applyTemp_noInt (hw f hf) w.ctx _ b) _
+
+theorem World.query_noInt (w : World R) (hw : w.WellFormed) (pt : P3 R) (depth : R) : NoInt ((w.query pt depth).worldT ()) :=
+  w.temperaturePure_noInt hw pt depth
 
 /-- **a query on a well-formed world never indexes out of range** (3-D interface) -/
 theorem World.props3_noInt (w : World R) (hw : w.WellFormed) (pt : P3 R) (depth : R) (ps : List Req) (g : G) :
@@ -1014,8 +1206,8 @@ theorem World.props3_noInt (w : World R) (hw : w.WellFormed) (pt : P3 R) (depth 
     simp only
     split
     · simp
-    · have := featuresBlocks_noInt (G := G) w.features hw w.ctx ⟨pt, w.ctx.coord.toNatural pt, depth, w.ctx.gravity⟩ ps bs hf g
-      cases hfb : featuresBlocks w.features w.ctx ⟨pt, w.ctx.coord.toNatural pt, depth, w.ctx.gravity⟩ ps bs g with
+    · have := featuresBlocks_noInt (G := G) w.features hw w.ctx (w.query pt depth) (w.query_noInt hw pt depth) ps bs hf g
+      cases hfb : featuresBlocks w.features w.ctx (w.query pt depth) ps bs g with
       | error e => rw [hfb] at this; simpa using this
       | ok r => simp
 
